@@ -34,7 +34,7 @@ func (c19) Batches(tier string, seed uint64) []core.Batch {
 
 func (c19) Mandatory(tier string) []string {
 	return []string{"graph:acyclic", "graph:cyclic", "graph:self-loop", "edge:effective", "edge:inactive-later-alternative", "edge:inactive-arch-excluded", "edge:inactive-substvar-first",
-		"edge:target-not-first-binary", "edge:via-Build-Depends", "edge:via-Build-Depends-Arch", "edge:via-Build-Depends-Indep", "outcome:order", "outcome:error", "folded-binary-field", "several-architectures-on-the-same-parsed-sources"}
+		"edge:target-not-first-binary", "edge:via-Build-Depends", "edge:via-Build-Depends-Arch", "edge:via-Build-Depends-Indep", "outcome:order", "outcome:error", "folded-binary-field", "several-architectures-on-the-same-parsed-sources", "spacing:compact", "names:hyphen-ambiguous-vocabulary", "line>=4096-bytes", "qualifier:native", "qualifier:any"}
 }
 
 type c19Src struct {
@@ -47,6 +47,7 @@ type c19Case struct {
 	Sources []c19Src `json:"sources"` // in input order
 	Arch    string   `json:"arch"`
 	Fold    bool     `json:"fold"`
+	Compact bool     `json:"compact,omitempty"` // no blanks except where the grammar needs one: "libfoo-dev[linux-any](>=1)|x"
 }
 
 var c19Fields = []string{"Build-Depends", "Build-Depends-Arch", "Build-Depends-Indep"}
@@ -160,6 +161,12 @@ func (cs c19Case) dscText(s c19Src) string {
 			if slot == model.SlAfterComma && cs.Fold {
 				return "\n"
 			}
+			if cs.Compact {
+				if slot == model.SlArchArch || slot == model.SlProfProf {
+					return " "
+				}
+				return ""
+			}
 			return model.Canonical(slot)
 		}, false)
 		lines := strings.Split(text, "\n")
@@ -185,6 +192,26 @@ func (p c19) run(c *core.C, cs c19Case) {
 	}
 	if cs.Fold {
 		c.Cover("folded-binary-field")
+	}
+	if cs.Compact {
+		c.Cover("spacing:compact")
+	}
+	for _, s := range cs.Sources {
+		if !strings.HasPrefix(s.Name, "src") {
+			c.Cover("names:hyphen-ambiguous-vocabulary")
+		}
+		for _, dep := range s.Fields {
+			if len(dep) >= 260 && !cs.Fold {
+				c.Cover("line>=4096-bytes")
+			}
+			for _, rel := range dep {
+				for _, alt := range rel {
+					if alt.Qual != "" {
+						c.Cover("qualifier:" + alt.Qual)
+					}
+				}
+			}
+		}
 	}
 	// the same parsed DSCs are first ordered for two OTHER architectures: ordering must not
 	// modify its input, so the result for cs.Arch afterwards must still obey the model
@@ -320,8 +347,17 @@ func (p c19) gen(r *core.Rand) c19Case {
 	am, _ := model.DenoteArch(cs.Arch)
 	// hidden order = creation order; sources are shuffled afterwards
 	srcs := make([]c19Src, n)
+	// now and then the source names come from a vocabulary in which joining two names with a hyphen is
+	// ambiguous ("qt"+"base-tools" = "qt-base"+"tools")
+	vocab := []string{"qt", "qt-base", "base-tools", "tools", "base", "qt-base-tools", "a", "a-b", "b", "b-c", "c", "a-b-c"}
+	useVocab := r.Chance(1, 4)
+	vperm := r.Perm(len(vocab))
+	cs.Compact = r.Chance(1, 4)
 	for i := range srcs {
 		srcs[i].Name = fmt.Sprintf("src%d-%s", i, r.Str("abcdef", 3))
+		if useVocab {
+			srcs[i].Name = vocab[vperm[i]]
+		}
 		for k := r.Range(1, 4); k > 0; k-- {
 			srcs[i].Binaries = append(srcs[i].Binaries, fmt.Sprintf("bin%d-%d-%s", i, k, r.Str("xyz", 2)))
 		}
@@ -400,6 +436,11 @@ func (p c19) gen(r *core.Rand) c19Case {
 			default:
 				rel = append(rel, decorate(external(), r.Bool()))
 			}
+			for pi := range rel {
+				if !rel[pi].Substvar && r.Chance(1, 6) { // multiarch qualifiers do not restrict anything
+					rel[pi].Qual = r.Pick([]string{"native", "any", "amd64", "i386"})
+				}
+			}
 			if len(rel) > 0 {
 				srcs[i].Fields[fi] = append(srcs[i].Fields[fi], rel)
 			}
@@ -419,6 +460,14 @@ func (p c19) gen(r *core.Rand) c19Case {
 		a := r.Intn(n)
 		fi := r.Intn(3)
 		srcs[a].Fields[fi] = append(srcs[a].Fields[fi], model.MRel{model.MPoss{Name: binOf(a)}})
+	}
+	if r.Chance(1, 6) { // a build-dependency line of more than 4096 bytes (the real relations come after the filler)
+		i, fi := r.Intn(n), r.Intn(3)
+		var filler model.MDep
+		for k := 0; k < 260; k++ {
+			filler = append(filler, model.MRel{model.MPoss{Name: fmt.Sprintf("libfiller%d-dev", k), Op: ">=", Ver: "1.0"}})
+		}
+		srcs[i].Fields[fi] = append(filler, srcs[i].Fields[fi]...)
 	}
 	perm := r.Perm(n)
 	for _, i := range perm {
